@@ -160,7 +160,10 @@ func (s *State) cmd(cmd string) {
 	needReload := false
 	check := func(ci string) {
 		out := s.Conn.GetOutput()
-		out, needReload = s.stripReloadBanner(out)
+		out, found := s.stripReloadBanner(out)
+		// Must not forget banner found in output of first command,
+		// when checking output of second command.
+		needReload = needReload || found
 		out = s.Conn.StripEcho(ci, out)
 		if out != "" {
 			if !isValidOutput(ci, out) {
